@@ -47,7 +47,7 @@ PROPS = {
         "functions": QUAL_FNS + ["KmerFilter::reduce", "KmerFilter::cheap_mix", "KmerFilter::fingerprint",
                                  "KmerFilter::location", "KmerFilter::bloom_add_and_check",
                                  "NtHashIterator::new", "NtHashIterator::roll_fwd", "NtHashIterator::curr_hash"],
-        "kani": [("nthash", None)],
+        "kani": [("nthash", None), ("readfilter", None)],
         "bounded": [],
     },
     "C04": {
@@ -100,6 +100,7 @@ PROPS = {
 KANI_GROUPS = {
     "tables": {"attach": "src/ska_dict/bit_encoding.rs", "file": "tables_harness.rs", "complete": True},
     "rollstep": {"attach": "src/ska_dict/split_kmer.rs", "file": "rollstep_harness.rs", "complete": True},
+    "readfilter": {"attach": "src/ska_dict.rs", "file": "readfilter_harness.rs", "incrate_unit": "readfilter_k", "complete": True, "args": ["-Z", "stubbing"]},
     "tablefrag": {"fragment_unit": "tablefrag_k", "file": "tablefrag_harness.rs", "complete": True},
     "rowfragk": {"fragment_unit": "rowfrag_k", "file": "rowfrag_harness.rs", "complete": False},
     "wrappers": {"attach": "src/merge_ska_array.rs", "file": "wrappers_harness.rs", "complete": True, "args": ["-Z", "stubbing"]},
